@@ -256,10 +256,10 @@ class RecCtx:
 def _indexed_bad(universe, loaded):
     out = []
     for i, d in enumerate(universe[:loaded]):
-        bad = d["bad"]
+        bad = G.class_bad(d)
         j = d["base"]
         while j is not None:
-            bad = bad or universe[j]["bad"]
+            bad = bad or G.class_bad(universe[j])
             j = universe[j]["base"]
         if bad and d["model"] and d["pkg"] and d["global"] and not d["inner"]:
             out.append(i)
@@ -270,7 +270,7 @@ def _buildable(universe, c):
     if c >= len(universe) or not universe[c]["model"]:
         return False
     while c is not None:
-        if universe[c]["bad"]:
+        if G.class_bad(universe[c]):
             return False
         c = universe[c]["base"]
     return True
@@ -363,11 +363,28 @@ def doc_call(realm, kit, op):
     from xsdata.exceptions import ParserError, SerializerError, XmlContextError
     from xsdata.formats.dataclass.parsers.config import ParserConfig
 
-    ctx, xp, xs, jp, js = kit
+    ctx, xp, xs, jp, js = kit[:5]
+    xs_native, xs_lxml, tree_ser, dict_enc, dict_dec, pycode = kit[5:]
     k = op["k"]
     try:
         if k == "xml_render":
             return {"xml": xs.render(realm.obj(op["toks"]))}
+        # one instance of every other serializer / encoder is shared as well
+        if k == "xml_render_native":
+            return {"xml": xs_native.render(realm.obj(op["toks"]))}
+        if k == "xml_render_lxml":
+            return {"xml": xs_lxml.render(realm.obj(op["toks"]), ns_map=op.get("ns_map"))}
+        if k == "tree_render":
+            from lxml import etree
+
+            return {"xml": etree.tostring(tree_ser.render(realm.obj(op["toks"]))).decode()}
+        if k == "dict_encode":
+            return {"dict": json.dumps(dict_enc.encode(realm.obj(op["toks"])), default=str, sort_keys=False)}
+        if k == "dict_decode":
+            cls = None if op.get("c") is None else realm.cls(op["c"])
+            return {"obj": repr(dict_dec.decode(json.loads(op["doc"]), cls))}
+        if k == "pycode_render":
+            return {"code": pycode.render(realm.obj(op["toks"]))}
         if k == "json_render":
             return {"json": js.render(realm.obj(op["toks"]))}
         if k == "xml_parse":
@@ -389,10 +406,14 @@ def doc_call(realm, kit, op):
 
 
 def make_kit(ctx):
-    from xsdata.formats.dataclass.parsers import JsonParser, XmlParser
-    from xsdata.formats.dataclass.serializers import JsonSerializer, XmlSerializer
+    from xsdata.formats.dataclass.parsers import DictDecoder, JsonParser, XmlParser
+    from xsdata.formats.dataclass.serializers import (DictEncoder, JsonSerializer, PycodeSerializer, TreeSerializer,
+                                                      XmlSerializer)
+    from xsdata.formats.dataclass.serializers.writers import LxmlEventWriter, XmlEventWriter
 
-    return (ctx, XmlParser(context=ctx), XmlSerializer(context=ctx), JsonParser(context=ctx), JsonSerializer(context=ctx))
+    return (ctx, XmlParser(context=ctx), XmlSerializer(context=ctx), JsonParser(context=ctx), JsonSerializer(context=ctx),
+            XmlSerializer(context=ctx, writer=XmlEventWriter), XmlSerializer(context=ctx, writer=LxmlEventWriter),
+            TreeSerializer(context=ctx), DictEncoder(context=ctx), DictDecoder(context=ctx), PycodeSerializer(context=ctx))
 
 
 def run_docs(universe, steps, ctx_factory=None):
@@ -438,6 +459,13 @@ def covered_doc_history(a, msg):
 
 
 def gen_doc_history(rng, tier):
+    # compound fields of the same name in two models, through every serializer kind
+    U = G.U_CHOICE
+    for kind in ("xml_render", "xml_render_native", "xml_render_lxml", "tree_render", "json_render", "dict_encode", "pycode_render"):
+        yield {"universe": U, "steps": G.fixed_world(U, [
+            {"k": kind, "toks": G.doc_choice(2, 0, 1)}, {"k": kind, "toks": G.doc_choice(3, 0, 1)},
+            {"k": kind, "toks": G.doc_choice(2, 4)}, {"k": kind, "toks": G.doc_choice(3, 1, 4)},
+            {"k": kind, "toks": G.doc_choice(5, 0, 1)}])}
     U = G.U_WITNESS
     yield {"universe": U, "steps": G.fixed_world(U, [{"k": "xml_render", "toks": G.DOC_PA}, {"k": "xml_render", "toks": G.DOC_PB}])}
     yield {"universe": U, "steps": G.fixed_world(U, [
